@@ -19,10 +19,17 @@ known = json.load(open("/verif/known_findings.json"))["findings"]
 want = set(sys.argv[1:])
 
 
-def sh(cmd, cwd=WT, env=None, timeout=5400):
-    p = subprocess.run(cmd, shell=True, cwd=cwd, env=env or dict(os.environ), stdout=subprocess.PIPE,
-                       stderr=subprocess.STDOUT, text=True, errors="replace", timeout=timeout)
-    return p.returncode, p.stdout
+def sh(cmd, cwd=WT, env=None, timeout=3600):
+    try:
+        p = subprocess.run(cmd, shell=True, cwd=cwd, env=env or dict(os.environ), stdout=subprocess.PIPE,
+                           stderr=subprocess.STDOUT, text=True, errors="replace", timeout=timeout)
+        return p.returncode, p.stdout
+    except subprocess.TimeoutExpired as ex:
+        out = ex.stdout or ""
+        if isinstance(out, bytes):
+            out = out.decode(errors="replace")
+        subprocess.run("pkill -f 'VERIF_REPO=/tmp/revert-wt' ; pkill -f 'build/cargo-[0-9a-f]*/debug'", shell=True)
+        return 124, out + "\nTIMEOUT (the check did not finish within the limit)"
 
 
 if not os.path.isdir(WT):
